@@ -8,6 +8,7 @@ import (
 	"math/rand"
 	"path/filepath"
 	"strings"
+	"time"
 
 	"github.com/els0r/goProbe/v4/pkg/goDB/encoder"
 	"github.com/els0r/goProbe/v4/pkg/goDB/encoder/encoders"
@@ -33,16 +34,11 @@ func init() {
 			"one writer at a time; no I/O faults (C04/C05)",
 		},
 		NumCases: func(tier, variant string) int {
+			n := map[string]int{"default": 400, "nocgo": 160, "asan": 60}[variant]
 			if tier == "thorough" {
-				if variant == "asan" {
-					return 1500
-				}
-				return 10000
+				n *= 25
 			}
-			if variant != "default" {
-				return 160
-			}
-			return 400
+			return stor.DevCases(n)
 		},
 		Variants: func(tier string) []string {
 			if tier == "thorough" {
@@ -51,6 +47,8 @@ func init() {
 			return []string{"default", "nocgo"}
 		},
 		Run: run,
+		// generous, progress based (a note per block): pure-Go zstd level 19 on a loaded machine is slow
+		CaseTimeout: 10 * time.Minute,
 		// single-threaded workloads: keep the Go runtime of the 16 parallel children from fighting over the cores
 		Env: func(tier, variant string) []string { return []string{"GOMAXPROCS=2"} },
 		Require: []string{"blocks_written", "fallback_gt4k_blocks", "fallback_gt4k_followed", "sessions_reopening_existing_day", "blocks_empty_column",
@@ -142,8 +140,8 @@ func run(c *fw.Case) {
 		hot[r.Intn(stor.NCols)] = true
 	}
 	maxSize := 0
-	if c.Variant == "asan" {
-		maxSize = 140000
+	if c.Variant == "asan" || (c.Variant == "nocgo" && !thorough) {
+		maxSize = 140000 // ASan and the pure-Go zstd at level 19 are slow
 	}
 	largeBudget := 4
 	genCol := func(col int) ([]byte, string) {
@@ -225,6 +223,7 @@ func run(c *fw.Case) {
 		for b := 0; b < nb; b++ {
 			rec := stor.BlockRec{TS: tsFor(), Enc: se.name, Sess: s}
 			h.last[di] = rec.TS
+			c.Note("session %d (%s) block %d ts %d", s, se.name, b, rec.TS)
 			var data [types.ColIdxCount][]byte
 			for col := 0; col < stor.NCols; col++ {
 				rec.Cols[col], rec.Class[col] = genCol(col)
